@@ -83,6 +83,7 @@ def run(ctx, chk):
     chk.rule("C07.R6", "REP protocol: nothing executes with CX=0; CX-1 and REPEAT otherwise; ZF test for REPE/REPNE", floor=9)
     chk.rule("C07.R7", "driver re-issues the same line on REPEAT", floor=1)
     chk.rule("C07.R8", "no abort site in the string helpers", floor=20)
+    chk.rule("C07.R10", "word MOVS loads the whole source word before it stores (source and destination may overlap)", floor=1)
 
     tab = string_table(ctx)
     for (m, wname), (k, fn) in sorted(tab.items()):
@@ -260,6 +261,15 @@ def run(ctx, chk):
                                           f"{fn['name']} computes destination-element {'-' if 'Sub' in op else '<'} {'source' if m == 'cmps' else 'accumulator'}; "
                                           f"the 8086 computes {'source' if m == 'cmps' else 'accumulator'} - destination", f"{where.rsplit(':', 1)[0]}:{e.line}")
             report_aborts(chk, "C07.R8", unit, s.I.events, where)
+            if m == "movs" and size == 2:
+                from insn import overlap_hazards
+                hz = overlap_hazards(s.I)
+                if hz:
+                    chk.violation("C07.R10", unit0, "source-read-after-destination-write",
+                                  f"{fn['name']} loads the byte at {hz[0][1]} after it has stored the byte at {hz[0][0]}: with the destination one byte above (or below) the source "
+                                  f"the second byte copied is the one just written, not the source's (the 8086 reads the word, then writes it)", where)
+                else:
+                    chk.ok("C07.R10", unit, "both source bytes are loaded before the first store")
             if sp["flags"] and df == 0:
                 compare_flag_rule(ctx, chk, unit0, m, fn, s, size, where)
 
